@@ -33,6 +33,10 @@ def jobs(tier, seed):
         out.append({'name': 'stats-1x3-zone_ids-%s' % sel, 'shape': [1, 3], 'stats': ['count', 'max'], 'sel': sel, 'ret': 'pandas.DataFrame', 'inf': True})
         out.append({'name': 'stats-1x3-zone_ids-%s-dataarray' % sel, 'shape': [1, 3], 'stats': ['sum', 'count'], 'sel': sel, 'ret': 'xarray.DataArray', 'inf': False})
     out.append({'name': 'stats-1x3-dataarray', 'shape': [1, 3], 'stats': ['mean', 'min'], 'sel': 'none', 'ret': 'xarray.DataArray', 'inf': True})
+    # integer zones (the usual case) and integer values
+    out.append({'name': 'stats-1x3-int-zones', 'shape': [1, 3], 'stats': ['count', 'sum', 'max'], 'sel': 'none', 'ret': 'pandas.DataFrame', 'inf': False, 'zdtype': 'int32'})
+    out.append({'name': 'stats-1x3-int-zones-int-values', 'shape': [1, 3], 'stats': ['mean', 'min', 'count'], 'sel': 'one', 'ret': 'pandas.DataFrame', 'inf': False, 'zdtype': 'int64', 'vdtype': 'int32'})
+    out.append({'name': 'stats-1x3-int-zones-dataarray', 'shape': [1, 3], 'stats': ['sum', 'max'], 'sel': 'two', 'ret': 'xarray.DataArray', 'inf': False, 'zdtype': 'uint8', 'vdtype': 'float32'})
     out.append({'name': 'stats-2x2-count-sum-max', 'shape': [2, 2], 'stats': ['count', 'sum', 'max'], 'sel': 'none', 'ret': 'pandas.DataFrame', 'inf': False})
     if tier != 'quick':
         for st in ALL:
@@ -79,10 +83,11 @@ def body(ctx, job):
     sc.set_axioms(sqrt_exact=True, congruence='syntactic')
     h, w = job['shape']
     n = h * w
-    zones_d = ctx.array('z', (h, w), 'float64', nan=True, inf=job['inf'])
+    zdt, vdt = job.get('zdtype', 'float64'), job.get('vdtype', 'float64')
+    zones_d = ctx.array('z', (h, w), zdt, nan=True, inf=job['inf'], **({'lo': 0 if zdt[0] == 'u' else -2, 'hi': 3} if zdt[0] in 'iu' else {}))
     heavy = job['stats'] is None or any(st in ('std', 'var') for st in (job['stats'] or []))
     # std / var are polynomial identities: keep every value valid there (validity filtering is exercised by the other statistics)
-    vals_d = ctx.array('v', (h, w), 'float64', nan=not heavy, inf=job['inf'] and not heavy)
+    vals_d = ctx.array('v', (h, w), vdt, nan=not heavy, inf=job['inf'] and not heavy, **({'lo': -4, 'hi': 4} if vdt[0] in 'iu' else {}))
     ys = coords_affine(h, float(h), -1.0)
     xs = coords_affine(w, 3.0, 2.0)
     zones = raster(zones_d, ys=ys, xs=xs, name='zones')
